@@ -83,6 +83,9 @@ type scenario struct {
 	// change then meets the repaired state)
 	Later      func(w *world.World)
 	LaterRound int
+	// NoDriftFrom: no drift is injected from this round on (e.g. because the user pauses the
+	// ObjectSet then, and a paused ObjectSet legitimately leaves drift alone); 0 = no limit
+	NoDriftFrom int
 }
 
 func ready(w *world.World) {
@@ -379,6 +382,16 @@ func scenarios() []scenario {
 			t2[0].Delegated = true
 			osw.SetODTemplate(w, "d", osw.Template(t2, 2))
 		}},
+		{Name: "S10 single ObjectSet (Widget and Gadget objects), paused by the user in round 3", Init: func() *world.World {
+			w := osw.NewWorld()
+			w.MustCreate(world.NewObjectSet("r1", osw.PhaseSpecs(osw.B1(2, 0), 1), world.StdProbes()))
+			return w
+		}, DriftTargets: testObjects, LaterRound: 3, NoDriftFrom: 2, Later: func(w *world.World) { osw.SetLifecycle(w, "r1", "Paused") }},
+		{Name: "S11 single ObjectSet with a delegated phase, paused by the user in round 4", Init: func() *world.World {
+			w := osw.NewWorld()
+			w.MustCreate(world.NewObjectSet("r1", osw.PhaseSpecs(osw.B1(2, 0b10), 1), world.StdProbes()))
+			return w
+		}, DriftTargets: testObjects, LaterRound: 4, NoDriftFrom: 2, Later: func(w *world.World) { osw.SetLifecycle(w, "r1", "Paused") }},
 		{Name: "S4 teardown of a rolled-out ObjectSet", Init: func() *world.World {
 			w := osw.NewWorld()
 			w.MustCreate(world.NewObjectSet("r1", osw.PhaseSpecs(osw.B1(2, 0), 1), world.StdProbes()))
@@ -471,6 +484,9 @@ func run(o checks.Opts) *report.Report {
 			nt := len(sc.DriftTargets(probe))
 			if nt == 0 {
 				nt = 3
+			}
+			if sc.NoDriftFrom > 0 && r >= sc.NoDriftFrom {
+				continue
 			}
 			for t := 0; t < nt+1; t++ {
 				for _, dk := range driftKinds {
